@@ -208,6 +208,8 @@ def loop_state_vars(body, lm, types=("usize", "f64", "bool")):
                 hv = s.val_entry(pk, lm.header)
                 declared_inside = any(st2["k"] == "live" and st2["l"] == pk[0]
                                       for b2 in lm.blocks for st2 in body.blocks[b2]["stmts"])
+                if body.locals[pk[0]].get("inlined"):
+                    continue   # parameter / local of an inlined helper: per-call, not loop-carried
                 if hv[0] == "phi" and hv[1] == lm.header and not declared_inside:
                     found[pk] = (nm, ty)
     return found
@@ -227,6 +229,19 @@ def entry_value(prog, body, lm, pk):
 def contradictory(facts):
     """Syntactically infeasible path condition: x < x, x != x, or an atom with both polarities."""
     seen = {}
+    from .poly import fact_nf, negate_cmp
+    nfs = set()
+    for f in facts:
+        if f[0][0] == "cmp":
+            nfs.add(fact_nf(f))
+    for nf in nfs:
+        if negate_cmp(nf) in nfs:
+            return True
+        k, p = nf
+        if p.is_const():
+            c = p.const_value()
+            if (k == "ge0" and c < 0) or (k == "gt0" and c <= 0) or (k == "eq0" and c != 0) or (k == "ne0" and c == 0):
+                return True
     for atom, pol in facts:
         if atom[0] == "false":
             return True
